@@ -1,4 +1,5 @@
 import VProofs.Lemmas.Iter
+import VProofs.Lemmas.IterDecl
 /-!
 # C02 — Tokens are a lossless, ordered partition of the text
 
@@ -75,6 +76,20 @@ theorem C02_surface_span (s : Sentence) (hlen : s.text.length = s.bounds.length 
   unfold Sentence.substring slice
   have : st ≤ en ∧ en ≤ s.text.length := by omega
   simp [this]
+
+/-- the specification read declaratively: `[st, en)` is reported iff it is non-empty, delimited on both sides by a word
+boundary or an end of the text, and every boundary strictly inside it is a known non-boundary (no `W`, no `U`) -/
+theorem C02_spec_declarative (bs : List B) (st en : Nat) :
+    (st, en) ∈ specTokens bs ↔
+      st < en ∧ en ≤ bs.length + 1 ∧
+      (st = 0 ∨ bs[st - 1]? = some B.W) ∧ (en = bs.length + 1 ∨ bs[en - 1]? = some B.W) ∧
+      ∀ k, st ≤ k → k + 1 < en → bs[k]? = some B.N := by
+  exact C02L.specTokens_decl bs st en
+
+/-- each such segment is reported once, and the segments come in order of position -/
+theorem C02_spec_sorted (bs : List B) :
+    (specTokens bs).Pairwise (fun a b => a.2 ≤ b.1) ∧ (specTokens bs).Nodup := by
+  exact C02L.specTokens_sorted bs
 
 /-! ## non-vacuity and the pinned-tree counterexample -/
 
